@@ -555,6 +555,14 @@ func endToEnd(c *hc.Ctx) error {
 				}
 			}(s)
 		}
+		// when every sender is done nothing more can arrive: close the client side, so that a receiver
+		// waiting for bytes that will never come gets EOF instead of waiting for a deadline
+		sendersDone := make(chan struct{})
+		go func() {
+			wg.Wait()
+			cl.Close()
+			close(sendersDone)
+		}()
 		a := <-accCh
 		sig := fmt.Sprintf("e2e %s senders=%d per=%d case=%d", kind, senders, per, i)
 		c.Eval(sig, senders > 1)
@@ -563,7 +571,8 @@ func endToEnd(c *hc.Ctx) error {
 		if a.err != nil {
 			fail(c, "e2e-accept:"+kind, sig, a.err.Error())
 			cancel()
-			cl.Close()
+			sv.Close()
+			<-sendersDone
 			continue
 		}
 		next := make([]int, senders)
@@ -585,7 +594,11 @@ func endToEnd(c *hc.Ctx) error {
 			}
 			next[s]++
 		}
-		wg.Wait()
+		if bad != "" {
+			// the receiver gave up: unblock the senders (net.Pipe writes are synchronous)
+			a.conn.Close()
+		}
+		<-sendersDone
 		select {
 		case err := <-sendErr:
 			if bad == "" {
